@@ -51,7 +51,7 @@ def family(rng, P):
                     L['QE'] = [[rng.randrange(P) if j < i else 0 for j in range(L['M'])] for i in range(L['M'])]
         # same fine collocation problem: Q, weights, operators, dt, u_init, nsteps; preconditioners and everything else differ
         f0, b0 = v['levels'][0], base['levels'][0]
-        for k in ('M', 'n', 'Q', 'w', 'A', 'B', 'c', 'dt', 'rightnode', 'collupdate'):
+        for k in ('M', 'n', 'Q', 'w', 'A', 'B', 'c', 'dt', 'rightnode', 'collupdate', 'tn', 'g'):
             f0[k] = copy.deepcopy(b0[k])
         M = f0['M']
         f0['QI'] = [[0] * M for _ in range(M)] if base['kind'] == 'expl' else [[rng.randrange(P) if j <= i else 0 for j in range(M)] for i in range(M)]
@@ -66,6 +66,7 @@ def family(rng, P):
                 for k in ('Q', 'QI', 'QE'):
                     Lc[k] = [row[:Mf] for row in Lc[k][:Mf]]
                 Lc['w'] = list(Lc['Q'][Mf - 1])
+                Lc['tn'] = [0] * Mf
                 Mc = Mf
             Rc = [[rng.randrange(P) for _ in range(Mf)] for _ in range(Mc)]
             for row in Rc:
